@@ -574,19 +574,58 @@ func boolAttributePresence(c *Ctx, rule string) {
 		return
 	}
 	var ts *ast.TypeSwitchStmt
+	var loop *ast.RangeStmt
 	ast.Inspect(fd.Body, func(n ast.Node) bool {
+		if r, ok := n.(*ast.RangeStmt); ok && loop == nil {
+			loop = r
+		}
 		if t, ok := n.(*ast.TypeSwitchStmt); ok && ts == nil {
 			ts = t
 		}
 		return true
 	})
-	if ts == nil {
-		c.undec(rule, funcKey(p, fd)+"|type-switch", c.pos(fd.Pos()), "RenderAttributes has no type switch over the attribute value")
+	if ts == nil || loop == nil {
+		c.undec(rule, funcKey(p, fd)+"|type-switch", c.pos(fd.Pos()), "RenderAttributes has no loop with a type switch over the attribute value")
 		return
 	}
 	bound := "value"
 	if as, ok := ts.Assign.(*ast.AssignStmt); ok && len(as.Lhs) == 1 {
 		bound = types.ExprString(as.Lhs[0])
+	}
+	// the writer parameter
+	var wobj types.Object
+	for _, prm := range fd.Type.Params.List {
+		if t := info.TypeOf(prm.Type); t != nil && t.String() == "io.Writer" && len(prm.Names) == 1 {
+			wobj = info.Defs[prm.Names[0]]
+		}
+	}
+	writes := func(st ast.Stmt) bool {
+		found := false
+		ast.Inspect(st, func(n ast.Node) bool {
+			if call, ok := n.(*ast.CallExpr); ok {
+				for _, a := range call.Args {
+					if id, ok := ast.Unparen(a).(*ast.Ident); ok && info.ObjectOf(id) == wobj && wobj != nil {
+						found = true
+					}
+				}
+				if se, ok := call.Fun.(*ast.SelectorExpr); ok {
+					if id, ok := se.X.(*ast.Ident); ok && info.ObjectOf(id) == wobj && wobj != nil {
+						found = true
+					}
+				}
+			}
+			return true
+		})
+		return found
+	}
+	// every path through one iteration of the loop, with the atoms it took (boolean variables are followed to what
+	// they were bound to); a path that writes inside/after the clause of a boolean-carrying type must have taken the
+	// boolean(s) as true
+	den := &denum{info: info, pkg: p.Types, inits: map[types.Object]ast.Expr{}, limit: 20000, loopBody: true, opaqueLoops: true}
+	den.finish(den.run(loop.Body.List, []dstate{{env: map[types.Object]ast.Expr{}}}))
+	if den.undecided != "" {
+		c.undec(rule, funcKey(p, fd)+"|paths", c.pos(fd.Pos()), "RenderAttributes: "+den.undecided)
+		return
 	}
 	for _, cl := range ts.Body.List {
 		cc := cl.(*ast.CaseClause)
@@ -616,31 +655,49 @@ func boolAttributePresence(c *Ctx, rule string) {
 			continue
 		}
 		key := fmt.Sprintf("%s|case:%s", funcKey(p, fd), tstr)
-		// the case body is one if statement; its condition must hold every needed boolean as a conjunct
-		good, why := false, "the case body is not a single if statement guarding the write"
-		if len(cc.Body) == 1 {
-			if is, ok := cc.Body[0].(*ast.IfStmt); ok {
-				conj := map[string]bool{}
-				var walk func(e ast.Expr)
-				walk = func(e ast.Expr) {
-					e = ast.Unparen(e)
-					if be, ok := e.(*ast.BinaryExpr); ok && be.Op == token.LAND {
-						walk(be.X)
-						walk(be.Y)
-						return
-					}
-					conj[types.ExprString(e)] = true
+		good, why := true, ""
+		nw := 0
+		for _, pth := range den.paths {
+			inClause := false
+			trueAtoms := map[string]bool{}
+			for _, pc := range pth.Conds {
+				if ta, ok := pc.Expr.(*ast.TypeAssertExpr); ok && ta.Type == cc.List[0] {
+					inClause = true
 				}
-				walk(is.Cond)
-				good = true
-				for _, nd := range need {
-					if !conj[nd] {
-						good, why = false, "the condition `"+types.ExprString(is.Cond)+"` does not require "+nd
+				if pc.Val {
+					trueAtoms[types.ExprString(pc.Expr)] = true
+				}
+			}
+			if !inClause {
+				continue
+			}
+			w := false
+			for _, st := range pth.Trace {
+				if writes(st) {
+					w = true
+				}
+			}
+			if !w {
+				continue
+			}
+			nw++
+			for _, nd := range need {
+				if !trueAtoms[nd] {
+					good = false
+					var took []string
+					for _, pc := range pth.Conds {
+						if _, ok := pc.Expr.(*ast.TypeAssertExpr); !ok {
+							took = append(took, fmt.Sprintf("%s=%v", types.ExprString(pc.Expr), pc.Val))
+						}
 					}
+					why = fmt.Sprintf("a path writes the attribute without having tested %s as true (conditions taken: %s)", nd, strings.Join(took, ", "))
 				}
 			}
 		}
-		c.check(good, rule, key, c.pos(cc.Pos()), "written only when "+strings.Join(need, " && ")+" holds",
+		if nw == 0 {
+			good, why = false, "no path of this case writes the attribute at all"
+		}
+		c.check(good, rule, key, c.pos(cc.Pos()), fmt.Sprintf("%d writing path(s), each only when %s holds", nw, strings.Join(need, " && ")),
 			fmt.Sprintf("RenderAttributes, case %s: %s — the attribute would be present although its boolean value is false", tstr, why))
 	}
 	c.floor(rule, 4)
